@@ -297,6 +297,9 @@ pub(crate) fn render_fish(
     // are headers and such, and fish is a bit
     for item in items.iter().rev().filter(|i| !i.subst.is_empty()) {
         if let Some(help) = item.extra.help.as_deref() {
+            // one candidate per line: a description coming from a dynamic completer can span
+            // several lines, only the first one fits
+            let help = help.split('\n').next().unwrap_or("");
             writeln!(res, "{}\t{}", item.subst, help)?;
         } else {
             writeln!(res, "{}", item.subst)?;
